@@ -217,6 +217,9 @@ func (c *Counter) More() bool { c.N++; return c.N <= c.Max }
 
 func Id[T any](x T) T             { return x }
 func Pair[K, V any](k K, v V) K   { return k }
+// Sub is not commutative: used to observe argument order through forwarding closures.
+func Sub(a, b int) int { return a - b }
+
 func Twice(x int) int             { spend(); ev(20, x, 0); return 2 * x }
 func Add(a, b int) int            { return a + b }
 func Sum(xs ...int) (s int)       { for _, x := range xs { s += x }; return }
